@@ -367,7 +367,20 @@ fn compare<P: FontTableProvider + SfntVersion>(cx: &mut Ctx, font: &TtFont, p: &
         Some(m) => {
             for i in 0..n {
                 if m[i] != font.metrics[i] {
-                    let sig = if i >= nhm { "hmtx-tail-lsb-differs" } else if m[i].0 != font.metrics[i].0 { "hmtx-advance-differs" } else { "hmtx-lsb-differs" };
+                    // Narrow signature for the tail: the known defect rebuilds an elided leftSideBearing[]
+                    // array from the xMin of glyphs 0.. instead of glyphs numberOfHMetrics..
+                    let tail_elided = enc_desc.contains("elide=(true, true)") || enc_desc.contains("elide=(false, true)");
+                    let sig = if i >= nhm {
+                        if m[i].0 != font.metrics[i].0 {
+                            "hmtx-tail-advance-differs"
+                        } else if tail_elided && m[i].1 == xmin_of(&font.glyphs[i - nhm]) {
+                            "hmtx-tail-lsb-differs:elided-array-rebuilt-from-first-glyphs"
+                        } else if tail_elided {
+                            "hmtx-tail-lsb-differs:elided-array"
+                        } else {
+                            "hmtx-tail-lsb-differs:explicit-array"
+                        }
+                    } else if m[i].0 != font.metrics[i].0 { "hmtx-advance-differs" } else { "hmtx-lsb-differs" };
                     cx.violation("hmtx", sig, wit(format!("glyph {} (numberOfHMetrics {}): metrics {:?} expected {:?}", i, nhm, m[i], font.metrics[i])));
                     return false;
                 }
